@@ -26,7 +26,7 @@ from . import codec_common as cc
 
 A10 = [35, 58, 59, 92, 47, 10, 97, 32, 13, 65279]
 SYMS = [1, 2, 3, 4, 5, 6, 7, 8, 9, 65279, 35, 58, 59, 92, 47, 10, 97, 32]
-NAMES = ["a.sm", "a.ssc", "A.SM", "a.txt", "a.sm.bak", "b.SsC", "a.ssc.old"]
+NAMES = ["a.sm", "a.ssc", "A.SM", "a.txt", "a.sm.bak", "b.SsC", "a.ssc.old", ".ssc", ".Sm", "v1.2.ssc"]
 
 
 # ---- real entry points --------------------------------------------------------------------------
